@@ -180,7 +180,13 @@ fn one(ctx: &mut Ctx, rng: &mut Rng, d_ns: i128, place: Place, code: u8) {
         vclock::plan_exit(t0 + off, fifo_fd, pid, b'x', code);
     }
     let naps_cut_before = crate::interpose::NAP_INTERRUPTIONS.load(SeqCst);
+    // spin guard: twenty thousand status checks in a row with no sleep in between are a busy-wait whatever the duration
+    vclock::SPIN_COUNT.store(0, SeqCst);
+    vclock::SPINS_BROKEN.store(0, SeqCst);
+    vclock::SPIN_LIMIT.store(20_000, SeqCst);
     let m = run::monitored(|| p.wait_timeout(dur));
+    vclock::SPIN_LIMIT.store(0, SeqCst);
+    let spins = vclock::SPINS_BROKEN.swap(0, SeqCst);
     let naps_cut = (crate::interpose::NAP_INTERRUPTIONS.load(SeqCst) - naps_cut_before) as i128;
     ctx.count("naps_cut_short", naps_cut as i64);
     let t1 = vclock::now_ns() as i64;
@@ -210,7 +216,10 @@ fn one(ctx: &mut Ctx, rng: &mut Rng, d_ns: i128, place: Place, code: u8) {
     if place == Place::Stopped {
         unsafe { crate::interpose::real_kill(pid, libc::SIGCONT) };
     }
-    if vclock::BLOCKING_WAITS_ON_NEVER_EXITING.load(SeqCst) > 0 {
+    ctx.count("calls_watched_by_the_spin_guard", 1);
+    if spins > 0 {
+        ctx.violation(&format!("C11/busy-wait/{}", label), "wait_timeout made 20000 status checks in a row without sleeping in between (the spin guard ended the loop by letting the virtual clock run ahead)", w.clone());
+    } else if vclock::BLOCKING_WAITS_ON_NEVER_EXITING.load(SeqCst) > 0 {
         ctx.violation(&format!("C11/blocks-in-wait/{}", label), "wait_timeout issued a wait without WNOHANG on a child that never exits: it would not come back at the deadline, or ever", w.clone());
     } else if m.cert.is_some() || m.panic.is_some() {
         ctx.violation(&format!("C11/wait_timeout-fails/{}", label), "wait_timeout hung or panicked", w.clone());
